@@ -123,6 +123,8 @@ HARNESSES = [
       note="compress replaced by contract model M-compress (proved by K-dispatch: counts<=offered, Done only after Finish, status latched; assumed: progress - Okay with output space and work left moved at least one byte)"),
     # ---- K-boundary (feature block-boundary) ----
     H("k_block_boundary_record", "K-boundary", ["C19"], fns=["DecompressorOxide::block_boundary_state", "DecompressorOxide::from_block_boundary_state"], args=["--features", "block-boundary"], cost=30),
+    H("k_serde_visits_every_decoder_field", "K-serde", ["C19"], fns=["<DecompressorOxide as serde::Serialize>::serialize (derived)"], args=["--features", "serde"], cost=30,
+      strength="F", note="a recording Serializer stands in for the data format; field values are not descended into; the Deserialize side is not exercised"),
     H("k_block_boundary_exit", "K-boundary", ["C19"], fns=["decompress_with_limit (BlockDone arm with stop flag, epilogue)"], args=["--features", "block-boundary"], cost=40,
       strength="B(out<=16,in<=4 bytes; complete in every register, table entry, flag and position)"),
     # ---- K-reset ----
@@ -162,6 +164,7 @@ HARNESSES = [
         strength="B(one planted 4-byte repeat at distance %s, 4 input bytes; complete in format, level, strategy, window bits, dictionary size)" % dd,
         note="LZOxide::write_code, flush_block, copy_from_slice replaced by recording contract models; window re-allocated as Box::new arrays (same all-zero state) so CBMC folds reads")
       for (n, dd) in (("k_fast_cap_300", "300"), ("k_fast_cap_5000", "5000"))],
+    H("k_normal_step_zeros", "K-normalstep", ["X"]), H("k_normal_step_distinct", "K-normalstep", ["X"]), H("k_fast_step", "K-faststep", ["X"]),
     # ---- K-huff ----
     H("k_enforce_max_code_size_kraft", "K-huff", ["C10"], fns=["HuffmanOxide::enforce_max_code_size"], cost=50, timeout=900,
       strength="B(<= 9 codes, tree depths <= 9, limit 7; complete over every depth histogram of a full binary tree in that range)"),
